@@ -88,10 +88,13 @@ def readPtrs (cfg : Cfg) : Nat → RS → Res (List Nat)
     allocates `num` elements on the say-so of the archive -/
 def readConList (cfg : Cfg) (s : RS) : Res (List Nat) :=
   (readData cfg (Prim.u32).tag 4 none s).bind fun nb s =>
-    if unle nb * safePtrSize ≥ cfg.allocLimit then .err .alloc s else readPtrs cfg (unle nb) s
+    -- `if (num > arc.GetRemainingSize()) throw ReadStreamFail` (`GetRemainingSize` starts with `CheckRead()`)
+    if !s.good || !lenGe s.rest (unle nb) then .err .streamFail s
+    else if unle nb * safePtrSize ≥ cfg.allocLimit then .err .alloc s else readPtrs cfg (unle nb) s
 
 /-- the entry loop of `con::set::Archive`: `NewEntry()`, `con::Archive(arc, *e)`, then
-    `HashT()(e->Key()) % tableLength` — a division by zero when the archive says `tableLength = 0` -/
+    `HashT()(e->Key()) % tableLength` (`tableLength = 0` is rejected before the loop since fix 1137e36; the test is
+    kept here so that the loop is safe on its own) -/
 def readEntries (cfg : Cfg) (tableLength : Nat) : Nat → RS → Res (List (Option Bytes × List Nat))
   | 0, s => .ok [] s
   | n + 1, s =>
@@ -114,10 +117,18 @@ def readSet (cfg : Cfg) (s : RS) : Res RawSet :=
   (readData cfg (Prim.u32).tag 4 none s).bind fun tl s =>
   (readData cfg (Prim.u32).tag 4 none s).bind fun th s =>
   (readData cfg (Prim.u32).tag 4 none s).bind fun cnt s =>
-  (readData cfg (Prim.u16).tag 2 (some (zeros 2)) s).bind fun tli s =>
-    if unle tl ≠ 1 ∧ unle tl * 8 ≥ cfg.allocLimit then .err .alloc s else
-    (readEntries cfg (unle tl) (unle cnt) s).bind fun es s =>
-      .ok { tableLength := unle tl, threshold := unle th, tableLengthIndex := unle tli, entries := es } s
+    -- `remaining = GetRemainingSize()`; no bucket to hash into / more entries than bytes left: `ReadStreamFail`;
+    -- a table longer than the rest of the stream is sized by its entries instead
+    if !s.good then .err .streamFail s
+    else if unle tl = 0 || !lenGe s.rest (unle cnt) then .err .streamFail s
+    else
+      let clamp := !lenGe s.rest (unle tl)
+      let tl' := if clamp then (if unle cnt > 1 then unle cnt else 1) else unle tl
+      let th' := if clamp then tl' else unle th
+      (readData cfg (Prim.u16).tag 2 (some (zeros 2)) s).bind fun tli s =>
+        if tl' ≠ 1 ∧ tl' * 8 ≥ cfg.allocLimit then .err .alloc s else
+        (readEntries cfg tl' (unle cnt) s).bind fun es s =>
+          .ok { tableLength := tl', threshold := th', tableLengthIndex := unle tli, entries := es } s
 
 def readOptSet (cfg : Cfg) (present : Bool) (s : RS) : Res (Option RawSet) :=
   if present then (readSet cfg s).bind fun r s => .ok (some r) s else .ok none s
